@@ -305,6 +305,16 @@ pub fn gen_ws(rng: &mut Rng, o: &WsOpts) -> WsSpec {
                 // pytest_plugins only understands absolute names; keep the module reachable that way
                 import_items.push(it);
             }
+            // two declarations become one with two entries (written as a list, a comma-separated string, `a + b` or `+=`)
+            let plug_idx: Vec<usize> = import_items.iter().enumerate().filter(|(_, i)| matches!(i, Item::Plugins { .. })).map(|(k, _)| k).collect();
+            if plug_idx.len() == 2 {
+                if let Item::Plugins { modules: m2, targets: t2 } = import_items.remove(plug_idx[1]) {
+                    if let Item::Plugins { modules, targets } = &mut import_items[plug_idx[0]] {
+                        modules.extend(m2);
+                        targets.extend(t2);
+                    }
+                }
+            }
             // a conftest never both defines and imports the same name in the default sweep
             let imported_here: Vec<String> = helpers.iter().flat_map(fixture_names_of).collect();
             items.retain(|i| if let Item::Fixture(f) = i { !imported_here.contains(&f.name().to_string()) } else { true });
